@@ -371,3 +371,29 @@ def assert_storage(L, E, I, o, r):
             for i, cell in enumerate(cells):
                 ok = cell is not UNINIT and (str(cell[0].alloc) == f'old{i}' or nav(cell[0])[0] is I.buf)
                 L.concrete(ok, f'slot {i} holds neither its previous content nor a header from this buffer')
+
+
+def add_validation(rec, E, I, o, params, api=None, variant=None):
+    """every k-th leaf (by a hash of its decision vector) is replayed natively by the runner: the engine's predicted
+    observation must equal the real parser's"""
+    k = params.get('validate_every', 25)
+    if not k or o.status == 'PANIC': return
+    h = hash(tuple(E.decisions)) % k
+    if h != 0: return
+    wit = E.witness()
+    if wit is None: return
+    bits, data = concrete_input(I, wit)
+    sc = I.sc
+    rec.setdefault('extra', {}).setdefault('validate', []).append(
+        {'variant': variant or sc.variant, 'kind': sc.kind, 'api': api or sc.api, 'flags': bits, 'cap': sc.cap, 'buf': data.hex(),
+         'pred': predicted_json(E, I, o)(wit)})
+
+
+def space_of(sc_kwargs):
+    n = 1
+    fixed = sc_kwargs.get('fixed') or {}
+    for i in range(sc_kwargs.get('nsym', 0)):
+        n *= len(fixed[i]) if i in fixed else 256
+    for f in sc_kwargs.get('flags') or []:
+        if f == 'sym': n *= 2
+    return n
